@@ -335,8 +335,7 @@ def check_cases(R, cases, model_level="full", kind="gen"):
         if idec != ["ok", want]:
             R.violation("the package's decoder does not recover the chunk", case, {"impl": _short(idec)})
         if model_level == "full":
-            mdec, _guard = next(rep2)
-            mdec = model_arr(mdec, cs["dt"])
+            mdec = model_arr(next(rep2), cs["dt"])
             if mdec != idec:
                 R.disagree("decode of valid bytes vs cseg_decode", case, _short(idec), _short(mdec))
 
@@ -363,7 +362,7 @@ def run(R):
             tiny.append({"dt": dt, "C": 1, "shape": list(shape), "blk": list(blk),
                          "values": [rng.choice([0, 1, 2 ** dt_bits(dt) - 1]) for _ in range(n)], "pool": 3})
     check_cases(R, tiny, kind="tiny")
-    n = 700 if quick else 6000
+    n = 480 if quick else 6000
     step = 140
     for i in range(0, n, step):
         check_cases(R, [gen_case(rng, quick) for _ in range(min(step, n - i))])
